@@ -211,8 +211,11 @@ func vComparable(c *icall) {
 func intrNopTuple(c *icall) {
 	c.ret(Tuple{BV(64, 0), Iface{}})
 }
+// log.Fatal*: a diagnostic exit. Modelled as a Go panic so that harnesses can observe it with
+// vExpectPanic; outside such a region it crashes the path (engine monitor).
 func intrLogFatal(c *icall) {
-	panic(failReq{&Failure{Kind: "fatal", ID: "log.Fatal called", Pos: c.e.posStr(c.curPos()), Stack: c.e.stackOf(c.g)}})
+	c.e.goPanic(c.st, c.g, Str{S: "log.Fatal: diagnostic exit"}, "log.Fatal: diagnostic exit", c.curPos())
+	panic(rtPanicSignal{})
 }
 
 // ---- fmt models ----
